@@ -73,14 +73,7 @@ def r1_preservation(ctx):
     ctx.floor("C09.R1", "outputs of selection filters", n, 12)
     # no element mutation in these filters (freshness analysis of C04.R3 restricted to them)
     c04.r3_copy_before_mutate(ctx, rule="C09.R1", only={c for _, c in SELECTORS} | {"Cache", "Batch", "Unbatch"})
-    # pipes.Cache replays exactly what it read
-    fn = ctx.fn(PF, "Cache.filter")
-    src = unparse(fn)
-    wl = [x for x in walk_shallow(fn) if isinstance(x, ast.While) and isinstance(x.test, ast.NamedExpr)]
-    CUR = unparse(wl[0].test.target) if wl else "current"
-    ok = "self._iter = iter(items)" in src and f"self._cache.extend({CUR})" in src and f"yield from {CUR}" in src and \
-        bool(wl) and unparse(wl[0].test.value).startswith("list(islice(self._iter, ") and src.count("yield from self._cache") == 2
-    ctx.ob("C09.R1", PF, "Cache.filter", fn, "pipes.Cache yields its buffer and then the items it appends to the buffer, in order", ok, stmt="pipes.Cache replay")
+    # pipes.Cache replays exactly what it read: the replay-buffer protocol (c04.r6_replay_buffer) is run under this rule id by run()
 
 
 def _is_input_derived(fr, v, st, how):
